@@ -353,5 +353,65 @@ func main() {
 			}
 			e.Bool("exportReportsPartial", reports, "Export: after the send loop a partial result (sResp.err != nil) ends the stream with a status error")
 		}
-	}, "proxyapi/grpc_v1.go", "proxyapi/grpc_export.go", "proxyapi/grpc_fetch.go", "pkg/storeapi/store_api.pb.go", "proxy/search/ingestor.go", "proxy/search/merged_docs_iterator.go")
+		// ---- the recover interceptors: the deferred recover must be a closure that assigns the NAMED result `err`
+		if g, err := r.Load("network/grpcutil/interceptors.go"); err != nil {
+			e.Missing("recoverDefers", err)
+		} else {
+			var shapes []string
+			for _, fn := range []string{"RecoverUnaryInterceptor", "RecoverStreamInterceptor"} {
+				fd := g.Func("", fn)
+				if fd == nil {
+					shapes = append(shapes, fn+":missing")
+					continue
+				}
+				shape := fn + ":no-defer"
+				ast.Inspect(fd.Body, func(n ast.Node) bool {
+					lit, ok := n.(*ast.FuncLit) // the interceptor itself
+					if !ok || lit.Type.Results == nil {
+						return true
+					}
+					named := false
+					for _, res := range lit.Type.Results.List {
+						for _, nm := range res.Names {
+							if nm.Name == "err" {
+								named = true
+							}
+						}
+					}
+					for _, st := range lit.Body.List {
+						d, ok := st.(*ast.DeferStmt)
+						if !ok {
+							continue
+						}
+						if cl, ok := d.Call.Fun.(*ast.FuncLit); ok && len(d.Call.Args) == 0 {
+							assigns, recovers := false, false
+							ast.Inspect(cl.Body, func(m ast.Node) bool {
+								switch x := m.(type) {
+								case *ast.AssignStmt:
+									if len(x.Lhs) == 1 && g.Render(x.Lhs[0]) == "err" && x.Tok == token.ASSIGN && strings.HasPrefix(g.Render(x.Rhs[0]), "status.Error(codes.Internal") {
+										assigns = true
+									}
+								case *ast.CallExpr:
+									if g.Render(x.Fun) == "recover" {
+										recovers = true
+									}
+								}
+								return true
+							})
+							if named && assigns && recovers {
+								shape = fn + ":closure-recovers-and-assigns-named-err"
+							} else {
+								shape = fn + ":closure-without-named-assignment"
+							}
+						} else {
+							shape = fn + ":deferred-call " + g.Render(d.Call)
+						}
+					}
+					return false
+				})
+				shapes = append(shapes, shape)
+			}
+			e.Strs("recoverDefers", shapes, "RecoverUnaryInterceptor / RecoverStreamInterceptor: shape of the deferred recover")
+		}
+	}, "network/grpcutil/interceptors.go", "proxyapi/grpc_v1.go", "proxyapi/grpc_export.go", "proxyapi/grpc_fetch.go", "pkg/storeapi/store_api.pb.go", "proxy/search/ingestor.go", "proxy/search/merged_docs_iterator.go")
 }
